@@ -67,6 +67,8 @@ where
                         let mut seen_colon = false;
                         let mut seen_lambda = false;
                         while let Some(Ok((tok, _))) = self.underlying.peek() {
+                            #[cfg(rustpython_parser_verif)]
+                            crate::verif_hooks::tick();
                             match tok {
                                 Tok::Newline => break,
                                 Tok::Lambda if nesting == 0 => seen_lambda = true,
@@ -107,6 +109,8 @@ where
                             ) {
                                 let mut nesting = 0;
                                 while let Some(Ok((tok, _))) = self.underlying.peek() {
+                                    #[cfg(rustpython_parser_verif)]
+                                    crate::verif_hooks::tick();
                                     match tok {
                                         Tok::Newline => break,
                                         Tok::Equal if nesting == 0 => {
